@@ -73,6 +73,9 @@ pub fn load_configs_raw(config_files: Vec<PathBuf>, partial_emmyrcs: Option<Vec<
             config_jsons
                 .into_iter()
                 .fold(Value::Object(Default::default()), |mut acc, item| {
+                    // bring every file to the nested form first: a flat key of one file and the nested
+                    // spelling of the same setting in another file must meet in `merge_values`
+                    let item = FlattenConfigObject::parse(item).to_emmyrc();
                     merge_values(&mut acc, item);
                     acc
                 });
